@@ -27,7 +27,7 @@ GenVarsUnused == alg = "" /\ st = <<>> /\ hist = <<>> /\ pc = "" /\ verdict = ""
 
 Typical(a, s) ==      \* one all-typical argument tuple of setter s (constructor default)
   LET T(k) == LET fd == Doc[a].f[ArgField(a, s, k)] IN CHOOSE x \in fd.typ : \A y \in fd.typ : x <= y
-  IN [s |-> s, a |-> [k \in 1..Doc[a].s[s].na |-> T(k)]]
+  IN [s |-> s, a |-> [k \in 1..Doc[a].s[s].na |-> T(k)], op |-> ""]
 
 CtorCalls(a)  == IF CtorIdx(a) = {} THEN {<<>>} ELSE {<<c>> : c \in Calls(a, CHOOSE s \in CtorIdx(a) : TRUE)}
 CtorTyp(a)    == IF CtorIdx(a) = {} THEN <<>> ELSE <<Typical(a, CHOOSE s \in CtorIdx(a) : TRUE)>>
@@ -48,6 +48,22 @@ Pairs(a) ==
                         \/ q[1] < q[2]
                         \/ q[1] > q[2] /\ Overlap(a, q[1], q[2])
                         \/ q[1] = q[2] /\ Doc[a].s[q[1]].na <= (IF Level >= 3 THEN 2 ELSE 1)}}
+
+\* checks interleaved with setters: Set ; check_ref (or check + clone) ; Set' on the same setter ; then the
+\* usual protocol.  Set takes a typical or a clearly invalid value, Set' ranges over the boundary tuples, so the
+\* value moves from valid to invalid, from invalid to valid, and between two invalid / two valid values; the final verdict must be that of
+\* the values held at the end (a verdict, a compiled regex, an error cached by the first check must not survive)
+Mid(a, op) == [s |-> 0, a |-> <<>>, op |-> op]
+\* representative first values: the typical ones and one clearly invalid value beyond each documented bound
+RepVals(fd) ==
+  fd.typ
+  \cup (IF fd.lok \in {"none", "hole"} THEN {} ELSE IF fd.ty = "real" THEN {fd.lo - M} ELSE {y \in {fd.lo - 1} : y >= 0})
+  \cup (IF fd.lok = "hole" THEN {(fd.lo + fd.hi) \div 2} ELSE IF fd.hik = "none" THEN {} ELSE IF fd.ty = "real" THEN {fd.hi + M} ELSE {fd.hi + 1})
+RepCalls(a, s) == {c \in OneAxis(a, s) : \A k \in 1..Doc[a].s[s].na : c.a[k] \in RepVals(Doc[a].f[ArgField(a, s, k)])}
+Interleaved(a) ==
+  UNION {{CtorTyp(a) \o <<c1, Mid(a, op), c2>> : c1 \in RepCalls(a, s), c2 \in OneAxis(a, s)} :
+         s \in NonCtor(a), op \in MidOps(a)}
+  \cup {CtorTyp(a) \o <<Mid(a, op)>> : op \in MidOps(a)}
 
 Triples(a) ==
   UNION {{CtorTyp(a) \o <<c1, c2, c3>> : c1 \in OneAxis(a, t[1]), c2 \in OneAxis(a, t[2]), c3 \in OneAxis(a, t[3])} :
@@ -70,11 +86,12 @@ Full(a) == IF FullSizeFrom(a, 1) <= MaxFull THEN FullFrom(a, 1) ELSE {}
 Programs(a) ==
   Singles(a)
   \cup (IF Level >= 2 THEN Pairs(a) ELSE {})
+  \cup (IF Level >= 2 THEN Interleaved(a) ELSE {})
   \cup (IF Level >= 3 THEN Triples(a) ELSE {})
   \cup (IF MaxFull > 0 THEN Full(a) ELSE {})
 
 \* the harness addresses setters by name, the trace specification by index
-Named(a, p) == [q \in 1..Len(p) |-> [s |-> p[q].s, n |-> Doc[a].s[p[q].s].n, a |-> p[q].a]]
+Named(a, p) == [q \in 1..Len(p) |-> [s |-> p[q].s, n |-> IF p[q].s = 0 THEN p[q].op ELSE Doc[a].s[p[q].s].n, a |-> p[q].a]]
 
 GenInit ==
   /\ GenVarsUnused
